@@ -177,6 +177,13 @@ Fixpoint scan_lines_aux (cur : bytes) (s : bytes) : list bytes :=
   end.
 Definition scan_lines (s : bytes) : list bytes := scan_lines_aux [] s.
 
+(* strings.Split(s, "\n") with a final empty piece dropped (the commit reader
+   after its repair): lines separated by \n only, every other byte kept, no
+   length limit *)
+Definition lf_lines (s : bytes) : list bytes :=
+  let l := split_all c_nl s in
+  if is_nil (last l []) then removelast l else l.
+
 (* strings.TrimSpace, ASCII white space only (U+0085/U+00A0 and other Unicode
    spaces, which Go also trims, are outside the modelled value domain) *)
 Definition is_space (c : byte) : bool :=
